@@ -556,4 +556,278 @@ theorem lower_idem (k : Bytes) : lower (lower k) = lower k := by
   · rfl
 
 
+/-! ### several header / trailer calls: accumulation like metadata.Join -/
+
+
+/-- all values stored under `key`, over every entry of the list, in order -/
+def valsAll (md : MD) (key : Bytes) : List Bytes := (md.filter fun kv => kv.1 = key).flatMap (·.2)
+
+/-- a Go map: no key twice -/
+def Distinct : MD → Prop
+  | [] => True
+  | kv :: rest => (∀ x ∈ rest, x.1 ≠ kv.1) ∧ Distinct rest
+
+theorem mdGet_of_absent (md : MD) (key : Bytes) (h : ∀ x ∈ md, x.1 ≠ key) : mdGet md key = [] := by
+  induction md with
+  | nil => rfl
+  | cons kv rest ih =>
+    obtain ⟨k, vs⟩ := kv
+    have : k ≠ key := h (k, vs) (by simp)
+    simp only [mdGet, this, if_false]
+    exact ih (fun x hx => h x (by simp [hx]))
+
+theorem valsAll_of_absent (md : MD) (key : Bytes) (h : ∀ x ∈ md, x.1 ≠ key) : valsAll md key = [] := by
+  unfold valsAll
+  rw [List.filter_eq_nil_iff.mpr (fun x hx => by simp [h x hx])]
+  rfl
+
+theorem valsAll_eq_mdGet (md : MD) (key : Bytes) (hd : Distinct md) : valsAll md key = mdGet md key := by
+  induction md with
+  | nil => rfl
+  | cons kv rest ih =>
+    obtain ⟨k, vs⟩ := kv
+    obtain ⟨h1, h2⟩ := hd
+    by_cases e : k = key
+    · subst e
+      have : valsAll rest k = [] := valsAll_of_absent rest k h1
+      simp only [valsAll, List.filter_cons, decide_true, if_true, List.flatMap_cons, mdGet] at this ⊢
+      simp [this]
+    · simp only [valsAll, List.filter_cons, e, decide_false, Bool.false_eq_true, if_false, mdGet]
+      exact ih h2
+
+theorem mdAppend_mem (md : MD) (k v : Bytes) : ∀ x ∈ mdAppend md k v, x.1 = k ∨ ∃ y ∈ md, y.1 = x.1 := by
+  induction md with
+  | nil => intro x hx; simp [mdAppend] at hx; subst hx; exact Or.inl rfl
+  | cons kv rest ih =>
+    obtain ⟨k', vs⟩ := kv
+    intro x hx
+    unfold mdAppend at hx
+    split at hx
+    · rename_i e
+      rcases List.mem_cons.mp hx with rfl | hx
+      · exact Or.inl e
+      · exact Or.inr ⟨x, by simp [hx], rfl⟩
+    · rcases List.mem_cons.mp hx with rfl | hx
+      · exact Or.inr ⟨(k', vs), by simp, rfl⟩
+      · rcases ih x hx with h | ⟨y, hy, e⟩
+        · exact Or.inl h
+        · exact Or.inr ⟨y, by simp [hy], e⟩
+
+theorem distinct_mdAppend (md : MD) (k v : Bytes) (hd : Distinct md) : Distinct (mdAppend md k v) := by
+  induction md with
+  | nil => simp [mdAppend, Distinct]
+  | cons kv rest ih =>
+    obtain ⟨k', vs⟩ := kv
+    obtain ⟨h1, h2⟩ := hd
+    unfold mdAppend
+    split
+    · exact ⟨h1, h2⟩
+    · rename_i ne
+      refine ⟨?_, ih h2⟩
+      intro x hx
+      rcases mdAppend_mem rest k v x hx with h | ⟨y, hy, e⟩
+      · rw [h]; exact fun e => ne e.symm
+      · rw [← e]; exact h1 y hy
+
+theorem distinct_ensureKey (md : MD) (k : Bytes) (hd : Distinct md) : Distinct (ensureKey md k) := by
+  unfold ensureKey
+  split
+  · exact hd
+  · rename_i h
+    simp only [List.any_eq_true, decide_eq_true_eq, not_exists, not_and] at h
+    induction md with
+    | nil => simp [Distinct]
+    | cons kv rest ih =>
+      obtain ⟨h1, h2⟩ := hd
+      refine ⟨?_, ih h2 (fun x hx => h x (by simp [hx]))⟩
+      intro x hx
+      rcases List.mem_append.mp hx with hx | hx
+      · exact h1 x hx
+      · simp only [List.mem_singleton] at hx
+        subst hx
+        exact fun e => h kv (by simp) e.symm
+
+theorem mdGet_append_empty (md : MD) (k key : Bytes) : mdGet (md ++ [(k, [])]) key = mdGet md key := by
+  induction md with
+  | nil => simp only [List.nil_append, mdGet]; split <;> rfl
+  | cons kv rest ih =>
+    obtain ⟨k', vs⟩ := kv
+    simp only [List.cons_append, mdGet]
+    split
+    · rfl
+    · exact ih
+
+theorem mdGet_ensureKey (md : MD) (k key : Bytes) : mdGet (ensureKey md k) key = mdGet md key := by
+  unfold ensureKey
+  split
+  · rfl
+  · exact mdGet_append_empty md k key
+
+/-- one entry of the second argument of `Join` -/
+def joinEntry (acc : MD) (kv : Bytes × List Bytes) : MD :=
+  kv.2.foldl (fun m v => mdAppend m kv.1 v) (ensureKey acc kv.1)
+
+theorem joinEntry_spec (acc : MD) (kv : Bytes × List Bytes) (hd : Distinct acc) (key : Bytes) :
+    Distinct (joinEntry acc kv) ∧ mdGet (joinEntry acc kv) key = mdGet acc key ++ (if kv.1 = key then kv.2 else []) := by
+  obtain ⟨k, vs⟩ := kv
+  unfold joinEntry
+  simp only
+  have base : Distinct (ensureKey acc k) ∧ mdGet (ensureKey acc k) key = mdGet acc key ++ (if k = key then [] else []) := by
+    exact ⟨distinct_ensureKey acc k hd, by simp [mdGet_ensureKey]⟩
+  generalize ensureKey acc k = m0 at base
+  suffices h : ∀ (pre : List Bytes) (m : MD), Distinct m → mdGet m key = mdGet acc key ++ (if k = key then pre else []) →
+      Distinct (vs.foldl (fun m v => mdAppend m k v) m) ∧
+      mdGet (vs.foldl (fun m v => mdAppend m k v) m) key = mdGet acc key ++ (if k = key then pre ++ vs else []) by
+    have := h [] m0 base.1 base.2
+    simpa using this
+  induction vs with
+  | nil => intro pre m hm hg; simpa using ⟨hm, hg⟩
+  | cons v t ih =>
+    intro pre m hm hg
+    simp only [List.foldl_cons]
+    have := ih (pre ++ [v]) (mdAppend m k v) (distinct_mdAppend m k v hm) (by
+      rw [mdGet_mdAppend, hg]
+      by_cases e : k = key <;> simp [e])
+    simpa using this
+
+theorem mdJoin_spec (a b : MD) (ha : Distinct a) (key : Bytes) :
+    Distinct (mdJoin a b) ∧ mdGet (mdJoin a b) key = mdGet a key ++ valsAll b key := by
+  unfold mdJoin
+  change Distinct (b.foldl joinEntry a) ∧ mdGet (b.foldl joinEntry a) key = mdGet a key ++ valsAll b key
+  induction b generalizing a with
+  | nil => simp [valsAll, ha]
+  | cons kv rest ih =>
+    simp only [List.foldl_cons]
+    obtain ⟨d1, g1⟩ := joinEntry_spec a kv ha key
+    obtain ⟨d2, g2⟩ := ih (joinEntry a kv) d1
+    refine ⟨d2, ?_⟩
+    rw [g2, g1]
+    by_cases e : kv.1 = key
+    · simp [e, valsAll, List.filter_cons]
+    · simp [e, valsAll, List.filter_cons]
+
+/-- The stream's accumulated metadata after a sequence of accepted calls: per key, the values of
+    the calls in call order; and it is a proper map again. -/
+theorem joinAll_spec (mds : List MD) (key : Bytes) :
+    Distinct (mds.foldl mdJoin []) ∧ mdGet (mds.foldl mdJoin []) key = mds.flatMap (valsAll · key) := by
+  suffices h : ∀ (acc : MD), Distinct acc →
+      Distinct (mds.foldl mdJoin acc) ∧ mdGet (mds.foldl mdJoin acc) key = mdGet acc key ++ mds.flatMap (valsAll · key) by
+    have := h [] trivial
+    simpa [mdGet] using this
+  induction mds with
+  | nil => intro acc ha; simpa using ha
+  | cons m t ih =>
+    intro acc ha
+    obtain ⟨d1, g1⟩ := mdJoin_spec acc m ha key
+    obtain ⟨d2, g2⟩ := ih (mdJoin acc m) d1
+    refine ⟨d2, ?_⟩
+    simp only [List.foldl_cons, List.flatMap_cons]
+    rw [g2, g1, List.append_assoc]
+
+
+theorem mdJoin_nil (a : MD) : mdJoin a [] = a := rfl
+
+/-- A header call either fails and leaves the stream's header alone, or succeeds and joins its
+    metadata into it. -/
+theorem isEmpty_nil {md : MD} (h : md.isEmpty = true) : md = [] := by simpa using h
+
+theorem hdrCall_header (st : HdrState) (api : HdrApi) (md : MD) :
+    ((hdrCall st api md).2 = none → (hdrCall st api md).1.header = mdJoin st.header md) ∧
+    ((hdrCall st api md).2 ≠ none → (hdrCall st api md).1 = st) := by
+  cases api
+  · -- ssSet
+    unfold hdrCall
+    simp only
+    by_cases h1 : md.isEmpty = true
+    · have := isEmpty_nil h1; subst this; simp [mdJoin_nil]
+    · by_cases h2 : (!validate md) = true
+      · simp [h1, h2]
+      · by_cases h3 : st.sent = true <;> simp [h1, h2, h3]
+  · -- ssSend
+    unfold hdrCall
+    simp only
+    by_cases h2 : (!validate md) = true
+    · simp [h2]
+    · by_cases h3 : st.sent = true <;> simp [h2, h3]
+  · -- ctxSet
+    unfold hdrCall
+    simp only
+    by_cases h1 : md.isEmpty = true
+    · have := isEmpty_nil h1; subst this; simp [mdJoin_nil]
+    · by_cases h3 : st.sent = true <;> simp [h1, h3]
+  · -- ctxSend
+    unfold hdrCall
+    simp only
+    by_cases h3 : st.sent = true <;> simp [h3]
+
+/-- run a handler's header calls in order -/
+def hdrRun (calls : List (HdrApi × MD)) (st : HdrState) : HdrState × List (Option Nat) :=
+  calls.foldl (fun acc c => let r := hdrCall acc.1 c.1 c.2; (r.1, acc.2 ++ [r.2])) (st, [])
+
+/-- the metadata values of the calls that succeeded, in call order -/
+def accepted : List (HdrApi × MD) → HdrState → List MD
+  | [], _ => []
+  | c :: rest, st =>
+    let r := hdrCall st c.1 c.2
+    (if r.2 = none then [c.2] else []) ++ accepted rest r.1
+
+theorem hdrRun_header (calls : List (HdrApi × MD)) (st : HdrState) (res : List (Option Nat)) :
+    (calls.foldl (fun acc c => let r := hdrCall acc.1 c.1 c.2; (r.1, acc.2 ++ [r.2])) (st, res)).1.header =
+      (accepted calls st).foldl mdJoin st.header := by
+  induction calls generalizing st res with
+  | nil => rfl
+  | cons c t ih =>
+    simp only [List.foldl_cons, accepted]
+    rw [ih]
+    obtain ⟨h1, h2⟩ := hdrCall_header st c.1 c.2
+    by_cases e : (hdrCall st c.1 c.2).2 = none
+    · simp only [e, if_true, List.singleton_append, List.foldl_cons, h1 e]
+    · simp only [e, if_false, List.nil_append, h2 e]
+
+/-- Several header calls: the client's `Header()` has, for every non-reserved key, exactly the
+    values of the calls that succeeded, in call order (after content-type's own entry). -/
+theorem header_calls_roundtrip (sub : Bytes) (calls : List (HdrApi × MD))
+    (hw : wireOK (headerFrame sub (hdrRun calls {}).1.header) = true) (key : Bytes) (hk : isReservedHeader key = false) :
+    ∃ m, clientHeaders (headerFrame sub (hdrRun calls {}).1.header) = .md m ∧
+      mdGet m key = mdGet (ctMD sub) key ++ (accepted calls {}).flatMap (valsAll · key) := by
+  obtain ⟨m, h1, h2⟩ := header_roundtrip sub (hdrRun calls {}).1.header hw
+  refine ⟨m, h1, ?_⟩
+  rw [h2 key, valsFor_sentPairs _ [] key hk]
+  have e : (hdrRun calls {}).1.header = (accepted calls {}).foldl mdJoin [] := hdrRun_header calls {} []
+  obtain ⟨d, g⟩ := joinAll_spec (accepted calls {}) key
+  rw [e]
+  simp only [List.filter_nil, List.map_nil, List.append_nil]
+  have := valsAll_eq_mdGet _ key d
+  unfold valsAll at this
+  rw [this, g]
+
+/-- Several SetTrailer calls (status without details, code < 2^31): the same for `Trailer()`. -/
+theorem trailer_calls_roundtrip (hs : Bool) (sub : Bytes) (st : Status) (mds : List MD)
+    (hc : st.code < 2147483648) (hd : st.details = []) (key : Bytes) (hk : isReservedHeader key = false) :
+    mdGet (clientTrailers (!hs) (writeStatus hs sub st (mds.foldl trlCall []))).2 key =
+      mdGet (if hs then [] else ctMD sub) key ++ mds.flatMap (valsAll · key) := by
+  rw [trailer_roundtrip hs sub st _ hc hd key, valsFor_sentPairs _ [] key hk]
+  have e : mds.foldl trlCall [] = mds.foldl mdJoin [] := by
+    have : ∀ acc : MD, mds.foldl trlCall acc = mds.foldl mdJoin acc := by
+      induction mds with
+      | nil => intro _; rfl
+      | cons m t ih =>
+        intro acc
+        simp only [List.foldl_cons]
+        have : trlCall acc m = mdJoin acc m := by
+          unfold trlCall
+          split
+          · rename_i he; have : m = [] := by simpa using he
+            subst this; rfl
+          · rfl
+        rw [this, ih]
+    exact this []
+  obtain ⟨d, g⟩ := joinAll_spec mds key
+  rw [e]
+  simp only [List.filter_nil, List.map_nil, List.append_nil]
+  have := valsAll_eq_mdGet _ key d
+  unfold valsAll at this
+  rw [this, g]
+
+
 end GrpcProofs.Lemmas.MdWire
